@@ -238,7 +238,7 @@ PROPS["C07"] = dict(
 PROPS["C10"]["runs"] += [
     dict(name="disc.Member.HandleMessage", dir="disc", files=["disc_c10.go.txt", "disc_model.go.txt"], entry="verifH_C10_disc_handle", args=_DISC_ARGS + ["-det"], params={"hMsgs": 2, "hLenMode": 0}, shards=16, shard_depth=6,
          count=["panic:", "deadlock:", "assert:C10-"], expect_covers=["returned"],
-         bounds={"messages in a row": 2, "length": "{0,1,31,32,33,34,35,37,41}", "bytes/source": "all", "state": "synchronising on a topic (peer tags precomputed by the real code) or idle"},
+         bounds={"messages in a row": 2, "length": "{0,32,33,34,35,37}", "bytes/source": "all", "state": "synchronising on a topic (peer tags precomputed by the real code) or idle"},
          tiers={"thorough": {"params": {"hMsgs": 1, "hLenMode": 1}, "bounds": {"messages in a row": 1, "length": "0..41"}}}),
     dict(name="disc.decodeTagAndMembershipList", dir="disc", files=["disc_c10.go.txt", "disc_model.go.txt"], entry="verifH_C10_decode", args=_DISC_ARGS, count=["panic:"], expect_covers=["decoded", "rejected"],
          bounds={"length": "0..38", "bytes": "all"}),
